@@ -111,6 +111,10 @@ pub fn hint_floor() -> usize {
     0x40_0000
 }
 
+pub fn live_reader() -> impl Fn(usize, usize) -> Option<Vec<u8>> {
+    |a, n| crate::maps::read_vec(a, n)
+}
+
 pub fn sig_name(s: i32) -> &'static str {
     match s {
         libc::SIGSEGV => "SIGSEGV",
